@@ -19,7 +19,8 @@ EXTENDS Naturals, Sequences, FiniteSets, TLC, Json
 CONSTANTS MaxDefs, Enabled, Shard, NShards
 
 Kinds == {"function", "async", "method", "nested", "class"}
-Sigs == {"plain", "defaults", "annotated", "varargs", "kwonly", "multiline", "multiline_comment", "decorated"}
+\* "odd_defaults": default values whose TEXT is hostile to textual header rewriting (runs of spaces, a '#', brackets, a colon)
+Sigs == {"plain", "defaults", "annotated", "varargs", "kwonly", "multiline", "multiline_comment", "decorated", "odd_defaults"}
 Docs == {"none", "rest", "google", "numpydoc"}
 Bodies == {"block", "oneline"}
 Styles == <<"rest", "google", "numpydoc">>
@@ -27,7 +28,7 @@ Defs == {d \in [kind : Kinds, sig : Sigs, doc : Docs, body : Bodies] :
            /\ (d.kind = "class" => d.sig \in {"plain", "decorated"} /\ d.body = "block")
            /\ (d.body = "oneline" => d.doc = "none" /\ d.sig \in {"plain", "defaults"})}
 Programs == {<<d>> : d \in Defs} \cup (IF MaxDefs >= 2 THEN {<<d, e>> : d \in {x \in Defs : x.body = "oneline" \/ x.sig \in {"plain", "multiline_comment"}},
-                                                                          e \in {x \in Defs : x.sig \in {"annotated", "decorated", "varargs"}}}
+                                                                          e \in {x \in Defs : x.sig \in {"annotated", "decorated", "varargs", "odd_defaults"}}}
                                        ELSE {})
 Cfgs == [style : {"rest", "google", "numpydoc"}, annotations : BOOLEAN]
 
